@@ -800,6 +800,7 @@ addmember(struct structbuilder *b, struct qualtype mt, char *name, int align, un
 		m->type = mt.type;
 		m->qual = mt.qual;
 		m->name = name;
+		m->bitfield = width != -1;
 		m->next = NULL;
 		*b->last = m;
 		b->last = &m->next;
